@@ -454,23 +454,35 @@ def run(tier, R):
                 continue
             for size in ((W, 1), (W, 3)) if quick else SIZES:
                 cfgs.append((wk, kl, size))
-    SEQ_DEPTH[0] = 0  # (un-rendered pairs as the first step; one step deeper only the (set_focus, delete) pairs)
     SEQ_DEPTH[1] = tier
-    spec = Spec(cfgs)
-    # both tiers reach depth 2; the thorough tier has four times the start configurations (all four box sizes, lists of up to three items)
-    res = R.bfs(spec, depth=2, max_states=None)
+    if quick:
+        SEQ_DEPTH[0] = 0  # (un-rendered pairs as the first step; one step deeper only the (set_focus, delete) pairs)
+        res = R.bfs(Spec(cfgs), depth=2, max_states=None)
+        res2 = None
+    else:
+        # two searches: three steps of single operations over the large configuration set, and two steps including the un-rendered pairs
+        # over the lists of up to two items (the pairs make a third level too large)
+        SEQ_DEPTH[0] = -2
+        res = R.bfs(Spec(cfgs), depth=3, max_states=4_000_000)
+        SEQ_DEPTH[0] = 0
+        small = [c for c in cfgs if len(c[1]) <= 2]
+        res2 = R.bfs(Spec(small), depth=2, max_states=None)
+    tot_states = res["states"] + (res2["states"] if res2 else 0)
+    tot_trans = res["transitions"] + (res2["transitions"] if res2 else 0)
     cov = {
-        "states": res["states"],
-        "transitions": res["transitions"],
-        "traces_validated_against_impl": res["transitions"],
+        "states": tot_states,
+        "transitions": tot_trans,
+        "traces_validated_against_impl": tot_trans,
         "evaluations": int(R.ctx.counts["evaluations"]),
         "distinct_nontrivial": len(R.ctx.sets.get("nontrivial", ())),
-        "rule": f"BFS depth {res['depth']} from {len(cfgs)} initial (walker kind, item list, box size) configurations: lists of 0..{2 if quick else 3} items over "
+        "rule": ("BFS" if quick else "two BFS runs (depth 3 without the pair operations; depth 2 with them over the lists of <= 2 items);") + f" depth {res['depth']} from {len(cfgs)} initial (walker kind, item list, box size) configurations: lists of 0..{2 if quick else 3} items over "
         "{1-row text, 3-row text, selectable icon, 2- and 5-row Edit, zero-row widget, 3-row Columns[Text, Pile]} + 5 longer lists, walkers SimpleFocusListWalker / SimpleListWalker / "
         "a minimal custom walker, sizes 4x{1,2,3,5}; events: 9 keys, press on every row, wheel, set_focus(i, coming_from), set_focus_valign, resize, walker "
         "insert/append/delete/replace, an item changing its own height in place (set_text / set_edit_text), and pairs (set_focus / set_focus_valign, then a walker edit or resize, and the reverse for insert / delete) with no render in between. Every state is rendered and compared with the slice oracle. non-trivial = distinct (rows, focus) renderings that are scrolled or overflow",
         "exhaustive": not res["capped"],
         "bfs_levels": res["levels"],
+        "pairs_search": None if res2 is None else {"configs": res2["configs"], "depth": res2["depth"], "states": res2["states"], "transitions": res2["transitions"], "levels": res2["levels"]},
+        "bound": {"depth": res["depth"], "capped": res["capped"]},
     }
     return {
         "coverage": cov,
